@@ -1,5 +1,10 @@
-from props.common import run_bounded
+from props.common import run_bounded, add_obs
+from pv import obs_tables as T
 
 
 def run(report):
-    run_bounded(report, ['parse', 'blk', 'fstr'])
+    add_obs(report, lambda: T.all_versions(which=('ll1',))[0], name='tables')
+    report.assume("exception-freedom and termination obligations of the parser engine (DESIGN 4/C02) are not discharged "
+                  "deductively; totality rests on the bounded stand-in",
+                  "A-REC: recursion depth / memory not modelled")
+    run_bounded(report, ['parse', 'blk', 'fstr'], extra='nesting')
